@@ -59,7 +59,7 @@ PROPS['C02'] = dict(
 )
 
 PROPS['C03'] = dict(
-    unit_modules=[], driver_modules=['drivers.c03'], level='other',
+    unit_modules=['contracts.c03_references'], driver_modules=['drivers.c03'], level='other',
     level_text='tbd', level_note='tbd', assumptions=COMMON_ASSUMPTIONS,
 )
 
